@@ -1337,6 +1337,261 @@ def rs_regenerate(repo, report):
 
 
 # ------------------------------------------------------------------------------------------------
+# (E) the top-level flow: calculateSingle (+ calculateSingleReverse) and calculateAllNodes
+
+FL_SRC = "connection_scan_algorithm/src/calculator.cpp"
+FL_OUT = os.path.join(VERIF, "coq", "gen", "Flow.v")
+FL_ZVARS = {"departureTimeSeconds": ("CDep", "(c_dep m)"), "arrivalTimeSeconds": ("CArr", "(c_arr m)"),
+            "bestArrivalTime": ("CBestArr", "(c_best_arr m)"), "bestDepartureTime": ("CBestDep", "(c_best_dep m)")}
+FL_ATOMS = {k: (v[1], Z) for k, v in FL_ZVARS.items()}
+FL_ATOMS.update({
+    "MAX_INT": ("MAX_INT", Z),
+    "parameters.isForwardCalculation()": ("(q_fwd (ce_p e))", B),
+    "resultCalculation.has_value()": ("(is_some (c_res m))", B),
+    "resultCalculation": ("(is_some (c_res m))", B),
+    "std::get<0>(*resultCalculation)": ("(x_res_time m)", Z),
+    "egressFootpath.time": ("(fp_time (c_row m))", Z),
+})
+FL_IGNORED = [r"^calculationTime=algorithmCalculationTime\.getDurationMicrosecondsNoStop\(\)$",
+              r"^std::unordered_map<Node::uid_t,JourneyStep>(?:forwardEgress|reverseAccess)JourneysSteps$"]
+FL_CALLS = {
+    "reset(parameters,*parameters.getOrigin(),*parameters.getDestination(),resetAccessPaths,resetFilters)": "CReset",
+    "reset(parameters,parameters.isForwardCalculation()?std::make_optional(*parameters.getPlace()):std::nullopt,"
+    "parameters.isForwardCalculation()?std::nullopt:std::make_optional(*parameters.getPlace()),true,true)": "CReset",
+    "autoresultCalculation=forwardCalculation(parameters,forwardEgressJourneysSteps)": "CForward",
+    "autoresultCalculation=reverseCalculation(parameters,reverseAccessJourneysSteps)": "CReverse",
+    "forwardCalculationAllNodes(parameters,forwardEgressJourneysSteps)": "CForwardAll",
+    "reverseCalculationAllNodes(parameters,reverseAccessJourneysSteps)": "CReverseAll",
+    "result=forwardJourneyStep(parameters,bestEgressNode,forwardEgressJourneysSteps)": "CForwardJourney",
+    "result=reverseJourneyStep(parameters,bestDepartureTime,bestAccessNode,reverseAccessJourneysSteps)": "CReverseJourney",
+    "result=forwardJourneyStepAllNodes(parameters,forwardEgressJourneysSteps)": "CForwardJourneyAll",
+    "result=reverseJourneyStepAllNodes(parameters,reverseAccessJourneysSteps)": "CReverseJourneyAll",
+    "assert(false)": "CAssertFalse",
+}
+FL_USABLE_LOOP = ("auto&&tripIte:transitData.getTrips()", "constTrip&trip=tripIte.second;tripsQueryOverlay[trip.uid].usable=true;")
+FL_REASON_NAMES = {"NO_ROUTING_FOUND": "R_NO_ROUTING_FOUND", "NO_ACCESS_AT_ORIGIN": "R_NO_ACCESS_AT_ORIGIN",
+                   "NO_ACCESS_AT_DESTINATION": "R_NO_ACCESS_AT_DESTINATION", "NO_SERVICE_FROM_ORIGIN": "R_NO_SERVICE_FROM_ORIGIN",
+                   "NO_SERVICE_TO_DESTINATION": "R_NO_SERVICE_TO_DESTINATION",
+                   "NO_ACCESS_AT_ORIGIN_AND_DESTINATION": "R_NO_ACCESS_AT_ORIGIN_AND_DESTINATION"}
+THROW = r"\{throwNoRoutingFoundException\(NoRoutingReason::(\w+)\);\}"
+FL_REASONS = [   # field, file, function, guard of the throw
+    ("fr_fwd_empty", "forward_calculation.cpp", "Calculator::forwardCalculation(", r"if\(reachableConnectionsCount==0\)"),
+    ("fr_fwdall_empty", "forward_calculation.cpp", "Calculator::forwardCalculationAllNodes(", r"if\(reachableConnectionsCount==0\)"),
+    ("fr_rev_empty", "reverse_calculation.cpp", "Calculator::reverseCalculation(", r"if\(reachableConnectionsCount==0\)"),
+    ("fr_revall_empty", "reverse_calculation.cpp", "Calculator::reverseCalculationAllNodes(", r"if\(reachableConnectionsCount==0\)"),
+    ("fr_fwd_journey", "forward_journey.cpp", "Calculator::forwardJourneyStep(", r"if\(!bestEgressNode\.has_value\(\)\)"),
+    ("fr_rev_journey", "reverse_journey.cpp", "Calculator::reverseJourneyStep(", r"if\(!bestAccessNode\.has_value\(\)\)"),
+]
+
+
+def fl_statement(text, src):
+    t = flat(text)
+    if SK.LOGGING.match(t) or any(re.match(rx, t) for rx in FL_IGNORED):
+        return []
+    if t in FL_CALLS:
+        return [(FL_CALLS[t],)]
+    if re.match(r"^std::unique_ptr<(?:SingleCalculationResult|AllNodesResult)>result$", t):
+        return [("CNewResult",)]
+    if t == "result=calculateSingleReverse(parameters)":
+        return [("CSeq", "gen_calculate_single_reverse")]
+    if re.match("^" + OPT_NODE + r"best(?:Egress|Access)Node$", t):
+        return [("CSetNode", "None")]
+    m = re.match(r"^best(?:Egress|Access)Node=(?!=)(.+)$", t)
+    if m:
+        if m.group(1) == "std::get<1>(*resultCalculation)":
+            return [("CSetNode", "(x_res_node m)")]
+        raise Untranslatable("unrecognised stop: " + m.group(1)[:80])
+    m = re.match(r"^(?:int)?(\w+)(?:(\+=|-=|=)(?!=)(.+)|\{(.+)\})$", t)
+    if m and m.group(1) in FL_ZVARS:
+        v, old = FL_ZVARS[m.group(1)]
+        if m.group(4) is not None:
+            return [("CSetZ", v, parse_expr(m.group(4), Z, FL_ATOMS))]
+        rhs = parse_expr(m.group(3), Z, FL_ATOMS)
+        if m.group(2) != "=":
+            rhs = "(%s %s %s)" % (old, m.group(2)[0], rhs)
+        return [("CSetZ", v, rhs)]
+    raise Untranslatable("unrecognised statement: " + t[:100])
+
+
+def fl_convert(nodes, src):
+    out = []
+    for n in nodes:
+        if n[0] == "stmt":
+            out += fl_statement(n[1], src)
+        elif n[0] == "if":
+            th, el = fl_convert(n[2], src), fl_convert(n[3], src)
+            if th or el:
+                out.append(("CIf", parse_expr(flat(n[1]), B, FL_ATOMS), th, el))
+        elif n[0] == "for":
+            h = flat(n[1])
+            if h == FL_USABLE_LOOP[0] and ser(n[2]) == FL_USABLE_LOOP[1]:
+                out.append(("CMarkUsable",))
+            elif h == "auto&egressFootpath:egressFootpaths" and len(n[2]) == 1 and n[2][0][0] == "stmt":
+                m = re.match(r"^nodesReverseTentativeTime\[egressFootpath\.node\.uid\]=(?!=)(.+)$", flat(n[2][0][1]))
+                if not m:
+                    raise Untranslatable("unrecognised statement in the loop over the egress footpaths")
+                out.append(("CForEgress", "(fp_node (c_row m))", parse_expr(m.group(1), Z, FL_ATOMS)))
+            else:
+                raise Untranslatable("unrecognised loop: for(%s)" % h[:80])
+        else:
+            raise Untranslatable("`%s` in the calculation flow" % n[0])
+    return out
+
+
+def fl_function(src, sig):
+    body = GG.fn_body(src, sig)
+    nodes, k, returned = [], SK.skip_ws(body, 1), False
+    while k < len(body) and body[k] != "}":
+        if SK.keyword_at(body, k, "return"):
+            j = body.index(";", k)
+            if flat(body[k:j]) != "returnresult":
+                raise Untranslatable("unexpected return in " + sig)
+            returned = True
+            k = SK.skip_ws(body, j + 1)
+            if body[k] != "}":
+                raise Untranslatable("statements after the return")
+            break
+        ns, k = SK.parse_stmt(body, k)
+        nodes += ns
+        k = SK.skip_ws(body, k)
+    if not returned:
+        raise Untranslatable("`return result` not found in " + sig)
+    return fl_convert(nodes, src)
+
+
+def fl_emit(nodes, indent):
+    pad = "  " * indent
+    if not nodes:
+        return "CDone"
+    n, rest = nodes[0], nodes[1:]
+    k = fl_emit(rest, indent)
+    fn = lambda x: "(fun e m => %s)" % x
+    c = n[0]
+    if len(n) == 1:
+        return "%s\n%s(%s)" % (c, pad, k)
+    if c == "CSeq":
+        return "CSeq %s\n%s(%s)" % (n[1], pad, k)
+    if c == "CSetZ":
+        return "CSetZ %s %s\n%s(%s)" % (n[1], fn(n[2]), pad, k)
+    if c == "CSetNode":
+        return "CSetNode %s\n%s(%s)" % (fn(n[1]), pad, k)
+    if c == "CForEgress":
+        return "CForEgress %s %s\n%s(%s)" % (fn(n[1]), fn(n[2]), pad, k)
+    if c == "CIf":
+        return "CIf %s\n%s  (%s)\n%s  (%s)\n%s(%s)" % (fn(n[1]), pad, fl_emit(n[2], indent + 1), pad, fl_emit(n[3], indent + 1), pad, k)
+    raise Untranslatable("unexpected node " + c)
+
+
+def fl_translate(repo):
+    src = GG.strip_c_comments(open(os.path.join(repo, FL_SRC)).read())
+    defs = {"gen_calculate_single_reverse": fl_emit(fl_function(src, "Calculator::calculateSingleReverse("), 1),
+            "gen_calculate_single": fl_emit(fl_function(src, "Calculator::calculateSingle("), 1),
+            "gen_calculate_allnodes": fl_emit(fl_function(src, "Calculator::calculateAllNodes("), 1)}
+    fields = []
+    for field, fname, sig, guard in FL_REASONS:
+        body = flat(GG.fn_body(GG.strip_c_comments(open(os.path.join(repo, "connection_scan_algorithm/src", fname)).read()), sig))
+        found = re.findall(guard + THROW, body)
+        if len(found) != 1 or found[0] not in FL_REASON_NAMES:
+            raise Untranslatable("%s: the exception of %s was not found" % (field, sig))
+        fields.append("%s := %s" % (field, FL_REASON_NAMES[found[0]]))
+    defs["gen_flow_reasons"] = "{| " + ";\n     ".join(fields) + " |}"
+    return defs
+
+
+FL_DEFS = [("gen_flow_reasons", "flow_reasons", "the NoRoutingReason thrown by the scans without a parsed connection and by the journey steps without a best stop"),
+           ("gen_calculate_single_reverse", "cskel", "calculateSingleReverse (its local `result` is the caller's)"),
+           ("gen_calculate_single", "cskel", "calculateSingle"),
+           ("gen_calculate_allnodes", "cskel", "calculateAllNodes")]
+FL_HAND = dict(
+    gen_calculate_single_reverse="""CNewResult
+  (CSetZ CBestDep (fun e m => (-1))
+  (CSetNode (fun e m => None)
+  (CReverse
+  (CIf (fun e m => (is_some (c_res m)))
+    (CSetZ CBestDep (fun e m => (x_res_time m))
+    (CSetNode (fun e m => (x_res_node m))
+    (CDone)))
+    (CDone)
+  (CReverseJourney
+  (CDone))))))""",
+    gen_calculate_single="""CReset
+  (CNewResult
+  (CIf (fun e m => (((c_dep m) >? (-1)) && (q_fwd (ce_p e))))
+    (CSetZ CBestArr (fun e m => MAX_INT)
+    (CSetNode (fun e m => None)
+    (CForward
+    (CIf (fun e m => (is_some (c_res m)))
+      (CSetZ CBestArr (fun e m => (x_res_time m))
+      (CSetNode (fun e m => (x_res_node m))
+      (CDone)))
+      (CDone)
+    (CIf (fun e m => ((c_best_arr m) <? MAX_INT))
+      (CSetZ CArr (fun e m => (c_best_arr m))
+      (CForEgress (fun e m => (fp_node (c_row m))) (fun e m => ((c_arr m) - (fp_time (c_row m))))
+      (CSeq gen_calculate_single_reverse
+      (CDone))))
+      (CForwardJourney
+      (CAssertFalse
+      (CDone)))
+    (CDone))))))
+    (CIf (fun e m => ((c_arr m) >? (-1)))
+      (CSetZ CDep (fun e m => (-1))
+      (CMarkUsable
+      (CSeq gen_calculate_single_reverse
+      (CDone))))
+      (CDone)
+    (CDone))
+  (CDone)))""",
+    gen_calculate_allnodes="""CReset
+  (CNewResult
+  (CIf (fun e m => (((c_dep m) >? (-1)) && (q_fwd (ce_p e))))
+    (CForwardAll
+    (CForwardJourneyAll
+    (CDone)))
+    (CIf (fun e m => ((c_arr m) >? (-1)))
+      (CSetZ CDep (fun e m => (-1))
+      (CMarkUsable
+      (CReverseAll
+      (CReverseJourneyAll
+      (CDone)))))
+      (CDone)
+    (CDone))
+  (CDone)))""",
+    gen_flow_reasons="""{| fr_fwd_empty := R_NO_SERVICE_FROM_ORIGIN;
+     fr_fwdall_empty := R_NO_SERVICE_FROM_ORIGIN;
+     fr_rev_empty := R_NO_SERVICE_TO_DESTINATION;
+     fr_revall_empty := R_NO_SERVICE_TO_DESTINATION;
+     fr_fwd_journey := R_NO_ROUTING_FOUND;
+     fr_rev_journey := R_NO_ROUTING_FOUND |}""")
+
+
+def fl_regenerate(repo, report):
+    origin = "source"
+    try:
+        defs = fl_translate(repo)
+    except (Untranslatable, GG.Untranslatable, ValueError, OSError) as e:
+        if FL_HAND is None:
+            raise RuntimeError("flow: %s, and no committed tree to fall back to" % e)
+        origin = "fallback"
+        report["fallback"].append("flow: %s" % e)
+        defs = FL_HAND
+    report["functions"]["flow"] = origin
+    lines = [
+        "(* GENERATED by tools/gen_loops.py from /repo's calculator.cpp (calculateSingle, calculateSingleReverse, calculateAllNodes) and the",
+        "   exceptions of forward_calculation.cpp / reverse_calculation.cpp / forward_journey.cpp / reverse_journey.cpp - do not edit.",
+        "   flow: %s *)" % origin,
+        "From Coq Require Import List ZArith Bool.",
+        "From TrV Require Import Scan Journey Calc.",
+        "Require Import TrV.Flow.",
+        "Local Open Scope Z_scope.",
+        "Local Open Scope bool_scope.",
+        ""]
+    for name, ty, what in FL_DEFS:
+        lines += ["(* %s *)" % what, "Definition %s : %s :=\n  %s." % (name, ty, defs[name]), ""]
+    return write_if_changed(FL_OUT, "\n".join(lines))
+
+
+# ------------------------------------------------------------------------------------------------
 
 def regenerate():
     repo = os.environ.get("TRV_REPO", "/repo")
@@ -1345,6 +1600,7 @@ def regenerate():
     changed = al_regenerate(repo, report) or changed
     changed = an_regenerate(repo, report) or changed
     changed = rs_regenerate(repo, report) or changed
+    changed = fl_regenerate(repo, report) or changed
     report["changed"] = changed
     report["from_source"] = sum(1 for v in report["functions"].values() if v == "source")
     report["total"] = len(report["functions"])
@@ -1356,6 +1612,7 @@ def print_hand():
     for var, fn, path in (("RB_HAND", rb_translate, RB_SRC), ("AL_HAND", al_translate, AL_SRC), ("RS_HAND", rs_translate, RS_SRC)):
         defs = fn(GG.strip_c_comments(open(os.path.join(repo, path)).read()))
         print("%s = dict(\n%s)" % (var, ",\n".join("    %s=\"\"\"%s\"\"\"" % (k, v) for k, v in defs.items())))
+    print("FL_HAND = dict(\n%s)" % ",\n".join("    %s=\"\"\"%s\"\"\"" % (k, v) for k, v in fl_translate(repo).items()))
     print("AN_HAND = dict(")
     for f in AN_FUNCS:
         defs = an_translate(f, GG.strip_c_comments(open(os.path.join(repo, f["file"])).read()))
